@@ -69,6 +69,13 @@ type optSet struct {
 	GlslHighp      bool   `json:"glsl_force_high_precision,omitempty"`
 	GlslImageLoad  int    `json:"glsl_bounds_image_load,omitempty"`
 	GlslImageStore int    `json:"glsl_bounds_image_store,omitempty"`
+
+	// ProcessOverrides: ir.ProcessOverrides(module, nil) (all overrides take
+	// their defaults) runs before each backend, as Rust naga's contract asks.
+	ProcessOverrides bool `json:"process_overrides,omitempty"`
+	// SkipOneCall leaves the one-call naga.CompileWithOptions stage out (it
+	// has no way to process overrides; known finding C08 "override").
+	SkipOneCall bool `json:"skip_one_call_api,omitempty"`
 }
 
 type ccase struct {
@@ -277,6 +284,11 @@ func compileAll(src string, o optSet) (fails []failure, m *ir.Module) {
 		if err != nil {
 			return nil
 		}
+		if o.ProcessOverrides {
+			if err := ir.ProcessOverrides(mod, nil); err != nil {
+				panic("ir.ProcessOverrides: " + err.Error())
+			}
+		}
 		return mod
 	}
 	if !guard("parse", &fails, func() error { _, err := naga.Parse(src); return err }) {
@@ -307,13 +319,15 @@ func compileAll(src string, o optSet) (fails []failure, m *ir.Module) {
 	}) {
 		return fails, m
 	}
-	guard("compile", &fails, func() error {
-		out, err := naga.CompileWithOptions(src, naga.DefaultOptions())
-		if err == nil && len(out) == 0 {
-			return fmt.Errorf("empty output without error")
-		}
-		return err
-	})
+	if !o.SkipOneCall {
+		guard("compile", &fails, func() error {
+			out, err := naga.CompileWithOptions(src, naga.DefaultOptions())
+			if err == nil && len(out) == 0 {
+				return fmt.Errorf("empty output without error")
+			}
+			return err
+		})
+	}
 	guard("spirv", &fails, func() error {
 		out, err := naga.GenerateSPIRV(lower(), spvOptions(o))
 		if err == nil && len(out) == 0 {
